@@ -163,7 +163,32 @@ func eachAlter(emit func(xferCase)) {
 	}
 }
 
+// eachStall: the sender stops in the middle (or at an envelope boundary) and keeps the stream open:
+// the receiver's read timeout must end the transfer with an error.
+func eachStall(emit func(xferCase)) {
+	for _, sh := range shapes(3) {
+		n := len(sh.flat())
+		for _, ts := range []*tsigSpec{nil, enumKey} {
+			c := sh
+			one := make([]int, n)
+			for i := range one {
+				one[i] = 1
+			}
+			c.Sizes = one
+			c.Tsig = ts
+			c.Sender = "harness"
+			total := streamLen(c)
+			first := 2 + len(buildPlan(c, make([]byte, 32), 1).frames[0].b)
+			for _, k := range []int{0, 1, total / 2, total - 1, first % total} {
+				c.Fault = faultSpec{Kind: "stall", K: k}
+				emit(c)
+			}
+		}
+	}
+}
+
 func init() {
+	pbt.RegisterEnum(pbt.Enum[xferCase]{Name: "stall", Each: eachStall, Check: checkXfer})
 	pbt.RegisterEnum(pbt.Enum[xferCase]{Name: "all-partitions", Exhaustive: true, Each: eachPartition, Check: checkXfer})
 	pbt.RegisterEnum(pbt.Enum[xferCase]{Name: "cut-every-octet", Exhaustive: true, Each: eachCut, Check: checkXfer})
 	pbt.RegisterEnum(pbt.Enum[xferCase]{Name: "alter-every-octet", Exhaustive: true, Each: eachAlter, Check: checkXfer})
